@@ -622,7 +622,8 @@ bool NaorPinkasEOTP::Choose_interactive_OneOutOfN_optimized
 		tmcg_mpz_fspowm(fpowm_table_g, z0, g, c, p);
 		mpz_set_ui(foo, sigma);
 		tmcg_mpz_fspowm(fpowm_table_g, bar, g, foo, p);
-		assert(mpz_invert(foo, bar, p));
+		if (!mpz_invert(foo, bar, p))
+			throw false;
 		mpz_mul(z0, z0, foo); // $z_0 = g^c / g^i$
 		mpz_mod(z0, z0, p);
 		out << x << std::endl << y << std::endl << z0 << std::endl;
